@@ -2,7 +2,10 @@ CHECK = {'rule': 'rapid-generated programs of Set/SetAll calls (0-6 variables, ~
          'start-up script of one sandbox kind (dcmd.InitSequence / sshsb builder via the verif hook) piped, followed by a dump trailer, to the real '
          '/bin/sh (dash) in an empty directory with a scrubbed environment; plus every value of length <=3 (thorough <=4) over the 13-character '
          'alphabet {$ ` " \' backslash newline ( ) ; # space E a} batched 40 per shell run through both builders, plus every name of length <=3 over '
-         '10 characters. Non-trivial: the script was executed and >=1 configured value contains a shell-significant character. Distinct = distinct '
+         '10 characters; plus delimiter replay (TestPropReplay): the script of a base environment is built, every here-document delimiter '
+         '(<< / <<-, quoted or not) and the structural text following each value are read out of it, values carrying those very tokens on a '
+         'line of their own + an attack payload (own and other variables) are configured on the same or a fresh Environments, the script is '
+         'built again and judged by the same oracle; ordinary values also get delimiter guesses derived from variable names (12%). Non-trivial: the script was executed and >=1 configured value contains a shell-significant character. Distinct = distinct '
          'case JSON (FNV-64).',
  'assumptions': ["decided against the /bin/sh of this image (dash 0.5.12); cat/touch/env are the image's coreutils reached through a private PATH",
                  'names with a meaning for the shell or the oracle (PATH, HOME, PWD, IFS, LC_*, PS1...) are never configured',
@@ -21,15 +24,22 @@ CHECK = {'rule': 'rapid-generated programs of Set/SetAll calls (0-6 variables, ~
                               'value-line-equal-EOF',
                               'value-high-byte',
                               'name-not-identifier',
-                              'setall']},
- 'tiers': {'quick': [{'test': '^TestProp$', 'checks': 500, 'shards': 6, 'timeout': 240}, {'test': '^TestEnum$', 'shards': 2, 'timeout': 240}],
-           'thorough': [{'test': '^TestProp$', 'checks': 5000, 'shards': 16, 'timeout': 3000}, {'test': '^TestEnum$', 'shards': 8, 'timeout': 3000}]}}
+                              'setall',
+                              'replay-heredoc-delimiter-extracted',
+                              'replay-own-delimiter',
+                              'replay-other-delimiter',
+                              'replay-same-environment-object',
+                              'value-line-own-name-derived-delimiter']},
+ 'tiers': {'quick': [{'test': '^TestProp$', 'checks': 500, 'shards': 6, 'timeout': 240}, {'test': '^TestEnum$', 'shards': 2, 'timeout': 240},
+                     {'test': '^TestPropReplay$', 'checks': 300, 'shards': 2, 'timeout': 240}],
+           'thorough': [{'test': '^TestProp$', 'checks': 5000, 'shards': 16, 'timeout': 3000}, {'test': '^TestEnum$', 'shards': 8, 'timeout': 3000},
+                        {'test': '^TestPropReplay$', 'checks': 3000, 'shards': 4, 'timeout': 3000}]}}
 
 TEXT = {'technique': 'property-based testing (rapid) + bounded exhaustive enumeration of shell-significant values and names, executing the generated '
               'start-up scripts of both sandbox builders with the real /bin/sh and comparing the resulting environment',
  'level_text': 'Exploration with exhaustive core: all values of length <= 3 (thorough <= 4) over 13 shell-significant characters and all names of '
                'length <= 3 over 10 characters, plus random Set/SetAll programs with attack fragments and bytes 0x01-0xFF, through both builders; '
-               'every script is run by /bin/sh in an empty directory with a scrubbed environment; variables, exported environment, directory and '
+               'a two-build delimiter replay (fences read from the first script are replayed inside the values of the second); every script is run by /bin/sh in an empty directory with a scrubbed environment; variables, exported environment, directory and '
                'exit status are compared with the configured map.',
  'level_note': "Trusts the image's /bin/sh (dash 0.5.12) and coreutils cat/touch/env. Open finding C18-dash-delimiter-prefix-highbyte is excluded by "
                'construction and reported as KNOWN-FINDING. SSH builder reached through the verif-tagged export VerifInitSequence.',
